@@ -46,6 +46,14 @@ def confirm(src, name):
         demo = os.path.join(src, "demo.cpp")
         exe = os.path.join(wt, "demo_bin")
         flags = "-std=c++17 -O1 -g -fsanitize=address,undefined -fno-sanitize-recover=all"
+        try:
+            with open(os.path.join(src, "meta.json")) as f:
+                cmds = " ".join(str(c) for c in json.load(f).get("commands", []))
+            if "-fsanitize=thread" in cmds:   # a data race needs ThreadSanitizer to be observed
+                flags = "-std=c++17 -O1 -g -fsanitize=thread -pthread"
+        except (OSError, ValueError):
+            pass
+        res["demo_flags"] = flags
         rc1, o1 = sh("g++ %s -I%s/include %s -o %s && %s" % (flags, wt, demo, exe, exe))
         rc2, o2 = sh("g++ %s -I/repo/include %s -o %s && %s" % (flags, demo, exe, exe))
         res["demo_with_change_exit"] = rc1
